@@ -13,6 +13,23 @@ pub struct Delivery {
     pub len: usize,
     /// absolute stream offset up to which data had arrived when it was delivered
     pub have: usize,
+    /// digest of everything the delivered object reports about itself (frame_data, data, lengths,
+    /// checksum, message number)
+    pub attrs: u64,
+}
+
+pub fn frame_attrs(f: &MessageFrame) -> u64 {
+    let mut d = crate::rng::Digest::new();
+    d.push_bytes(f.frame_data());
+    d.push_bytes(f.data());
+    d.push(f.frame_len() as u64);
+    d.push(f.data_len() as u64);
+    d.push(f.crc() as u64);
+    d.push(match f.message_number() {
+        Some(n) => 0x1_0000 | n as u64,
+        None => 0,
+    });
+    d.finish()
 }
 
 #[derive(Clone, Debug, Default, PartialEq, Eq)]
@@ -130,7 +147,7 @@ fn scan_once(
     }
     let delivered = if let Some(f) = &f {
         let rs = rel_start(tail, f);
-        out.deliveries.push(Delivery { off: base.wrapping_add(rs), len: f.frame_len(), have });
+        out.deliveries.push(Delivery { off: base.wrapping_add(rs), len: f.frame_len(), have, attrs: frame_attrs(f) });
         true
     } else {
         false
@@ -213,6 +230,7 @@ fn drive_v3(stream: &[u8], a: usize, bounds: &[usize], prop: &str, obs: &mut dyn
         have = end;
         let mut frames: Vec<(usize, usize)> = Vec::new();
         let mut marks: Vec<usize> = Vec::new();
+        let mut attrs: Vec<u64> = Vec::new();
         let mut nexts = 0usize;
         let c;
         {
@@ -226,6 +244,7 @@ fn drive_v3(stream: &[u8], a: usize, bounds: &[usize], prop: &str, obs: &mut dyn
                     Some(f) => {
                         let rs = rel_start(&tail, &f);
                         frames.push((rs, f.frame_len()));
+                        attrs.push(frame_attrs(&f));
                         marks.push(it.consumed());
                     }
                     None => {
@@ -263,8 +282,8 @@ fn drive_v3(stream: &[u8], a: usize, bounds: &[usize], prop: &str, obs: &mut dyn
         if c > tail.len() {
             return Err(breach(prop, "C05.b", format!("iterator consumed {} > buffer length {} at abs {}", c, tail.len(), base)));
         }
-        for (rs, l) in &frames {
-            out.deliveries.push(Delivery { off: base.wrapping_add(*rs), len: *l, have });
+        for (k, (rs, l)) in frames.iter().enumerate() {
+            out.deliveries.push(Delivery { off: base.wrapping_add(*rs), len: *l, have, attrs: attrs.get(k).copied().unwrap_or(0) });
         }
         tail.drain(..c);
         base += c;
@@ -339,7 +358,7 @@ fn drive_v5(stream: &[u8], a: usize, bounds: &[usize], prop: &str, obs: &mut dyn
 
 /// one-shot reference behaviour of C06: the real scanner applied repeatedly to
 /// the whole of `seg` (no observer)
-pub fn one_shot(seg: &[u8]) -> Result<(Vec<(usize, usize)>, usize), Violation> {
+pub fn one_shot(seg: &[u8]) -> Result<(Vec<(usize, usize, u64)>, usize), Violation> {
     let mut frames = Vec::new();
     let mut base = 0usize;
     let mut guard = 0usize;
@@ -350,7 +369,7 @@ pub fn one_shot(seg: &[u8]) -> Result<(Vec<(usize, usize)>, usize), Violation> {
         }
         let d = if let Some(f) = &f {
             let rs = rel_start(&seg[base..], f);
-            frames.push((base.wrapping_add(rs), f.frame_len()));
+            frames.push((base.wrapping_add(rs), f.frame_len(), frame_attrs(f)));
             true
         } else {
             false
